@@ -8,6 +8,7 @@ package main
 
 import (
 	"fmt"
+	"go/ast"
 	"go/token"
 	"go/types"
 	"sort"
@@ -37,6 +38,100 @@ type codecTables struct {
 	wTypes, rTypes   []types.Type
 	wKinds, rKinds   []string
 	problems         []string
+	// internals by role (unexported names are not anchors)
+	RBuf, RPos, RErr *types.Var    // Reader: the []byte field, the int cursor, the sticky error
+	Check            *ssa.Function // Reader: unexported (int) bool bounds check
+	ReadReflect      *ssa.Function // Reader: unexported (any) error fallback called by Read
+	WBuf, WErr       *types.Var    // Writer: the []byte field, the sticky error
+	Reserve          *ssa.Function // Writer: unexported (int) capacity reservation
+	WriteReflect     *ssa.Function // Writer: unexported (any) error fallback called by Write
+}
+
+// internals resolves the codec's unexported fields and helpers by type / signature / call position.
+func (p *Program) codecInternals(c *codecTables) {
+	if c.ReaderT == nil || c.WriterT == nil {
+		return
+	}
+	isBytes := func(t types.Type) bool {
+		sl, ok := t.Underlying().(*types.Slice)
+		if !ok {
+			return false
+		}
+		b, ok := sl.Elem().Underlying().(*types.Basic)
+		return ok && b.Kind() == types.Byte
+	}
+	isErr := func(t types.Type) bool { return types.Identical(t, types.Universe.Lookup("error").Type()) }
+	isInt := func(t types.Type) bool { b, ok := t.Underlying().(*types.Basic); return ok && b.Kind() == types.Int }
+	isAny := func(t types.Type) bool {
+		i, ok := t.Underlying().(*types.Interface)
+		return ok && i.NumMethods() == 0
+	}
+	rs := c.ReaderT.Underlying().(*types.Struct)
+	for i := 0; i < rs.NumFields(); i++ {
+		f := rs.Field(i)
+		switch {
+		case isBytes(f.Type()):
+			c.RBuf = f
+		case isInt(f.Type()):
+			c.RPos = f
+		case isErr(f.Type()):
+			c.RErr = f
+		}
+	}
+	ws := c.WriterT.Underlying().(*types.Struct)
+	for i := 0; i < ws.NumFields(); i++ {
+		f := ws.Field(i)
+		switch {
+		case isBytes(f.Type()):
+			c.WBuf = f
+		case isErr(f.Type()):
+			c.WErr = f
+		}
+	}
+	unexp := func(fn *ssa.Function) bool {
+		return fn.Parent() == nil && !ast.IsExported(fn.Name()) && len(fn.Blocks) > 0
+	}
+	for _, fn := range p.methodsOf(c.ReaderT) {
+		sig := fn.Signature
+		if unexp(fn) && sig.Params().Len() == 1 && isInt(sig.Params().At(0).Type()) && sig.Results().Len() == 1 && isBool(sig.Results().At(0).Type()) {
+			c.Check = fn
+		}
+	}
+	for _, fn := range p.methodsOf(c.WriterT) {
+		sig := fn.Signature
+		if unexp(fn) && sig.Params().Len() == 1 && isInt(sig.Params().At(0).Type()) && sig.Results().Len() == 0 {
+			c.Reserve = fn
+		}
+	}
+	fallback := func(T *types.Named, entry string) *ssa.Function {
+		e := p.methodNamed(T, entry)
+		if e == nil {
+			return nil
+		}
+		for _, b := range e.Blocks {
+			for _, in := range b.Instrs {
+				if cc := callOf(in); cc != nil && cc.StaticCallee() != nil && cc.StaticCallee() != e {
+					y := cc.StaticCallee()
+					if y.Signature.Recv() != nil && namedOf(y.Signature.Recv().Type()) == T && unexp(y) && y.Signature.Params().Len() == 1 && isAny(y.Signature.Params().At(0).Type()) &&
+						y.Signature.Results().Len() == 1 && isErr(y.Signature.Results().At(0).Type()) {
+						return y
+					}
+				}
+			}
+		}
+		return nil
+	}
+	c.ReadReflect, c.WriteReflect = fallback(c.ReaderT, "Read"), fallback(c.WriterT, "Write")
+	for name, v := range map[string]any{"Reader buffer": c.RBuf, "Reader cursor": c.RPos, "Reader sticky error": c.RErr, "Writer buffer": c.WBuf, "Writer sticky error": c.WErr} {
+		if v.(*types.Var) == nil {
+			c.problems = append(c.problems, "codec internal by role: "+name)
+		}
+	}
+	for name, v := range map[string]*ssa.Function{"Reader bounds check": c.Check, "Reader reflective fallback": c.ReadReflect, "Writer capacity reservation": c.Reserve, "Writer reflective fallback": c.WriteReflect} {
+		if v == nil {
+			c.problems = append(c.problems, "codec internal by role: "+name)
+		}
+	}
 }
 
 var codecCache = map[*Program]*codecTables{}
@@ -163,6 +258,7 @@ func (p *Program) codec() *codecTables {
 			*klist = append(*klist, kind)
 		}
 	}
+	p.codecInternals(c)
 	parse(p.methodNamed(c.WriterT, "Write"), c.WKind, c.WMethod, &c.wTypes, &c.wKinds)
 	parse(p.methodNamed(c.ReaderT, "Read"), c.RKind, c.RMethod, &c.rTypes, &c.rKinds)
 	if len(c.WKind) < 10 || len(c.RKind) < 10 {
